@@ -35,7 +35,12 @@ struct VC_char { int operator()(std::unique_ptr<char>) const; };
 struct VR_char { int operator()(std::unique_ptr<char[]>) const; };
 }}
 '''
-GH = PRE_GHOST + ''' unsigned long g_new_bytes; unsigned g_news; void *g_new_ptr;
+# object-view memcpy: cbmc's own byte copy, whose source and destination ranges carry cbmc's pointer checks (a bulk copy
+# out of sandbox memory is fine as long as it reads the range that was checked)
+GH = PRE_GHOST + '''
+void *memcpy(void *, const void *, unsigned long);
+void *vstd_memcpy(void *d, const void *s, unsigned long n) { return memcpy(d, s, n); }
+unsigned long g_new_bytes; unsigned g_news; void *g_new_ptr;
 unsigned g_vcalls; int g_vret; void *g_sbx_mem; unsigned long g_strlen_ret; unsigned g_strlens; unsigned long g_checked_bytes; unsigned long g_checked_start;
 '''
 # sandbox memory = one heap object [mem, mem+size) registered as region 0 of the backend
